@@ -101,14 +101,20 @@ def build(variant="asan", repo=None, extra_lib_cflags="", tag=""):
     _prune(out, keep=set(objs + hobjs + [exe]))
     return exe
 
-def _prune(out, keep, max_files=600):
-    """objects / executables of trees that are no longer built: drop the oldest beyond max_files (never the current ones)"""
+def _prune(out, keep, max_age_s=6 * 3600):
+    """objects / executables of trees that are no longer built: files not used by any build for max_age_s are dropped.
+    Every build refreshes the time stamp of what it uses, so a check that is running elsewhere (another tree, a long
+    thorough tier) never loses its executable (a count-based limit did exactly that once)."""
+    import time
+    now = time.time()
+    for f in keep:
+        try: os.utime(f, None)
+        except OSError: pass
     try:
-        fs = [f for f in glob.glob(os.path.join(out, "*.o")) + glob.glob(os.path.join(out, "vdrv_*")) if f not in keep and ".tmp" not in f]
-        if len(fs) + len(keep) <= max_files: return
-        fs.sort(key=os.path.getmtime)
-        for f in fs[:len(fs) + len(keep) - max_files]:
-            try: os.unlink(f)
+        for f in glob.glob(os.path.join(out, "*.o")) + glob.glob(os.path.join(out, "vdrv_*")):
+            if f in keep: continue
+            try:
+                if now - os.path.getmtime(f) > max_age_s: os.unlink(f)
             except OSError: pass
     except OSError: pass
 
